@@ -2068,7 +2068,7 @@ class Scene:
             aircraft_object = self._airplanes[aircraft_name]
 
             # Get current aerodynamic state (relative to the local wind)
-            _,_,vel_0 = aircraft_object.get_aerodynamic_state(v_wind=self._get_wind(aircraft_object.p_bar))
+            alpha_0,beta_0,vel_0 = aircraft_object.get_aerodynamic_state(v_wind=self._get_wind(aircraft_object.p_bar))
 
             # Determine current angular rates and the frame they were specified in
             omega_0 = aircraft_object.w
@@ -2079,15 +2079,18 @@ class Scene:
             q_pert = np.array([0.0, dtheta_dot, 0.0])
             r_pert = np.array([0.0, 0.0, dtheta_dot])
 
+            # The stability and wind axes belong to the current angle of attack and sideslip, which may have changed since the rates were given
             if frame == "stab":
-                p_pert = quat_inv_trans(aircraft_object.q_to_stab, p_pert)
-                q_pert = quat_inv_trans(aircraft_object.q_to_stab, q_pert)
-                r_pert = quat_inv_trans(aircraft_object.q_to_stab, r_pert)
+                q_to_stab = quat_conj(euler_to_quat([0.0, m.radians(alpha_0), 0.0]))
+                p_pert = quat_inv_trans(q_to_stab, p_pert)
+                q_pert = quat_inv_trans(q_to_stab, q_pert)
+                r_pert = quat_inv_trans(q_to_stab, r_pert)
 
             elif frame == "wind":
-                p_pert = quat_inv_trans(aircraft_object.q_to_wind, p_pert)
-                q_pert = quat_inv_trans(aircraft_object.q_to_wind, q_pert)
-                r_pert = quat_inv_trans(aircraft_object.q_to_wind, r_pert)
+                q_to_wind = quat_conj(euler_to_quat([0.0, m.radians(alpha_0), -m.radians(beta_0)]))
+                p_pert = quat_inv_trans(q_to_wind, p_pert)
+                q_pert = quat_inv_trans(q_to_wind, q_pert)
+                r_pert = quat_inv_trans(q_to_wind, r_pert)
 
             # Perturb forward in roll rate
             omega_pert_p_fwd = omega_0+p_pert
